@@ -58,7 +58,7 @@ def model(case, fs):
                 break
             stdin = ("file", t)      # read when the command runs, after all redirections
         elif op == "<<<":
-            stdin = rd["word"].encode() + b"\n"
+            stdin = (b"" if rd["word"] in ('""', "''") else rd["word"].encode()) + b"\n"       # (an empty word is still a word)
         elif op in ("2>&1",):
             fds[2] = fds[1]
         elif op in ("1>&2", ">&2"):
@@ -321,7 +321,7 @@ def gen_case(rng, thorough):
             if rng.random() < 0.5:
                 redirs.append({"op": "<", "target": rng.choice(FILES), "space": not attached})
             else:
-                redirs.append({"op": "<<<", "word": rng.choice(["w", "hello", "x=1", "a.b"]), "space": not attached})
+                redirs.append({"op": "<<<", "word": rng.choice(["w", "hello", "x=1", "a.b", '""', "''"]), "space": not attached})
             continue
         op = rng.choice(OUT_OPS)
         rd = {"op": op}
